@@ -49,14 +49,14 @@ const (
 )
 
 type propCfg struct {
-	Engine        string // pipesim | seqsim
-	Level         string // exploration | fault_enumeration
-	QuickRandom   int
-	QuickWall     int // seconds, soft limit for the random part
-	ThoroughRand  int
-	ThoroughWall  int
-	Rule          string
-	Assumptions   []string
+	Engine       string // pipesim | seqsim
+	Level        string // exploration | fault_enumeration
+	QuickRandom  int
+	QuickWall    int // seconds, soft limit for the random part
+	ThoroughRand int
+	ThoroughWall int
+	Rule         string
+	Assumptions  []string
 }
 
 var pipesimAssume = []string{
@@ -104,7 +104,6 @@ func init() {
 }
 
 const distinctRule = "Distinct = distinct hash of the (task,site) release sequence and select outcomes; non-trivial = a fault fired (cancel while library tasks were alive, abandonment, stall, select arbitration against source order, preemption, failing function) or at least 3 scheduling decisions had >= 2 runnable tasks."
-
 
 func die(code int, format string, args ...any) {
 	fmt.Fprintf(os.Stderr, format+"\n", args...)
@@ -592,7 +591,11 @@ func report(st *staged, prop string, cfg propCfg, tier string, seed uint64, outs
 		os.WriteFile(dst, b, 0o644)
 		if rc := doReplay(st, prop, dst, false); rc != 1 {
 			st.cleanup()
-			die(2, "INFRA: violation %s did not reproduce from its replay file %s in a fresh process (exit %d) — simulator nondeterminism, not a verdict", sig, dst, rc)
+			why := "simulator nondeterminism"
+			if f.Unstable {
+				why = "it had not re-executed identically inside its worker process either: the library keeps state across runs of one process, or the simulator is nondeterministic"
+			}
+			die(2, "INFRA: violation %s did not reproduce from its replay file %s in a fresh process (exit %d) — %s; not a verdict", sig, dst, rc, why)
 		}
 		violations += fa.count
 		fmt.Printf("violation: %s %s [%s] x%d: %s\n", f.Clause, f.Stage, f.Class, fa.count, f.Msg)
@@ -629,34 +632,34 @@ func report(st *staged, prop string, cfg propCfg, tier string, seed uint64, outs
 		sampleAny = append(sampleAny, "no sample recorded")
 	}
 	covOut := map[string]any{
-		"evaluations":                 runs,
-		"distinct_nontrivial":         len(nont),
-		"rule":                        cfg.Rule,
-		"samples":                     sampleAny,
-		"exhaustive":                  false,
-		"enumerated_subspace":         map[string]any{"base_plans": enumTotal, "base_plans_run": enumBases, "runs_including_fault_sweeps": enumRuns, "complete": enumBases == enumTotal && !stoppedEarly},
-		"random_runs":                 randomRuns,
-		"runs_per_hour":               int64(runsPerHour),
-		"seeds":                       []uint64{seed},
-		"sim_time_covered_s":          float64(vns) / 1e9,
-		"scheduler_steps":             steps,
-		"fault_counts_fired":          faults,
-		"select_multi_ready":          selMulti,
-		"select_non_source_order":     selNon,
-		"decisions":                   decisions,
-		"decisions_with_choice":       multiTask,
-		"fair_default_decisions":      fairDef,
-		"distinct_schedules":          len(sched),
-		"distinct_counts_note":        "exact up to 250000 per worker process; beyond that the distinct counts are lower bounds (probe distinct_schedule_count_capped)",
-		"distinct_abstract_states":    len(states),
-		"policies":                    policies,
-		"probes":                      probes,
-		"max_steps_after_last_fault":  maxAfter,
-		"max_steps_in_a_run":          maxSteps,
-		"cleanup_deadlocks":           leaks,
-		"tree_fingerprint":            st.fingerprint,
-		"known_findings_matched":      knownMatched,
-		"worker_build_s":              st.buildS,
+		"evaluations":                runs,
+		"distinct_nontrivial":        len(nont),
+		"rule":                       cfg.Rule,
+		"samples":                    sampleAny,
+		"exhaustive":                 false,
+		"enumerated_subspace":        map[string]any{"base_plans": enumTotal, "base_plans_run": enumBases, "runs_including_fault_sweeps": enumRuns, "complete": enumBases == enumTotal && !stoppedEarly},
+		"random_runs":                randomRuns,
+		"runs_per_hour":              int64(runsPerHour),
+		"seeds":                      []uint64{seed},
+		"sim_time_covered_s":         float64(vns) / 1e9,
+		"scheduler_steps":            steps,
+		"fault_counts_fired":         faults,
+		"select_multi_ready":         selMulti,
+		"select_non_source_order":    selNon,
+		"decisions":                  decisions,
+		"decisions_with_choice":      multiTask,
+		"fair_default_decisions":     fairDef,
+		"distinct_schedules":         len(sched),
+		"distinct_counts_note":       "exact up to 250000 per worker process; beyond that the distinct counts are lower bounds (probe distinct_schedule_count_capped)",
+		"distinct_abstract_states":   len(states),
+		"policies":                   policies,
+		"probes":                     probes,
+		"max_steps_after_last_fault": maxAfter,
+		"max_steps_in_a_run":         maxSteps,
+		"cleanup_deadlocks":          leaks,
+		"tree_fingerprint":           st.fingerprint,
+		"known_findings_matched":     knownMatched,
+		"worker_build_s":             st.buildS,
 	}
 	if cfg.Engine == "pipesim" {
 		covOut["site_outcome_coverage"] = map[string]any{"sites_total": len(st.sites), "sites_covered": coveredSites, "uncovered": uncovered, "site_outcomes_hit": len(cover)}
